@@ -47,7 +47,7 @@ def scenario(tier):
             b.mkfile("R/A/new.txt", 44)
         elif pre == "tampered":
             b.alter(posixpath.join("R/ascmhl", b.manifest_names("R")[0]), 2)
-        cmd = sym.choose("command", READONLY + ["flatten", "create", "create-n", "create-sf", "create-dr", "create-new-root"])
+        cmd = sym.choose("command", READONLY + ["flatten", "create", "create-n", "create-sf", "create-dr", "create-new-root", "create-ignoring-child"])
         before = b.snapshot("")
         tag = "%s on %s tree (nested: %s)" % (cmd, pre, layout)
         b.note(tag)
@@ -83,6 +83,10 @@ def scenario(tier):
                 root, scope = "R/B" if "R/B" not in roots else "R/z", None
                 r = b.run("create", root=root, h=["xxh64"])
                 scope = [root] + [x for x in roots if cm.under(x, root)]
+            elif cmd == "create-ignoring-child":
+                # a nested history below a folder excluded by a pattern is out of scope of the run
+                r = b.run("create", root="R", h=["md5"], i=["A"])
+                scope = [x for x in roots if not cm.under(x, "R/A")]
             elif cmd == "create-sf":
                 r = b.run("create", root="R", h=["md5"], sf=["R/A/AA/aa1.txt"])
                 scope = [x for x in roots if cm.under("R/A/AA/aa1.txt", x)]
@@ -151,6 +155,6 @@ def harnesses(tier):
             Harness("c14-side-effects", scenario(tier), frontier=6, budget_s=2400,
                     what="flat / nested histories in 5 pre-states (unchanged, altered, deleted, added, tampered manifest) x 19 command forms: "
                          "operation log and before/after snapshot (type, content id, size, mtime) of the whole tree",
-                    bounds={"layouts": "flat | child at A/AA | children at A and B", "commands": READONLY + ["flatten", "create", "create -n", "create -sf", "create -dr", "create on a new root"]},
+                    bounds={"layouts": "flat | child at A/AA | children at A and B", "commands": READONLY + ["flatten", "create", "create -n", "create -sf", "create -dr", "create on a new root", "create -i <folder containing a nested history>"]},
                     outside=["mtime of directories that receive new entries (updated by the kernel; excluded from real snapshots)",
                              "behaviour when the process is killed (C15)"])]
